@@ -1,11 +1,17 @@
 /-
-Driver for `Model/Units.lean` at α = ℚ:   lake env lean --run PgVerif/Drv/Units.lean
+Driver for `Model/Units.lean` + `Model/UnitsObj.lean` at α = ℚ:   lake env lean --run PgVerif/Drv/Units.lean
+Every line is parsed into one `Req ℚ` and answered with `Req.run` (a function of the line alone).
   cP <psat|~> <T|F> <v> <mf> <mt> <uf> <ut>
   cL <7 env values: gasDensity liquidDensity molarMass gasMolarDensity liquidMolarDensity matDensity matMolarMass> <v> <bf> <bt> <uf> <ut> <bm> <um>
   cM <7 env> <v> <bf> <bt> <uf> <ut>
   cT <v> <uf> <ut>
+  cU <table: pressure|molar|mass|volume> <v> <uf> <ut> <sign: 1|-1>          c_unit on a named table
+  cS <psat|~> <unit>                                                        Adsorbate.saturation_pressure(T, unit)
+  cMo <v> <bf> <bt> <uf> <ut> <op>*        c_material with a Material object described by its history of
+                                           operations  K:<key>:<v> (constructor keyword)  S:<key>:<v|~> (setter)
+  mG <key> <op>*                           Material.get_prop(key)  ->  ok <v> | ok ~ | err param
 -/
-import PgVerif.Model.Units
+import PgVerif.Model.UnitsObj
 import PgVerif.Drv.Proto
 import Mathlib.Algebra.Order.Field.Rat
 
@@ -24,25 +30,53 @@ def mkEnv (l : List (Option Rat)) : Option (Env ℚ) :=
     | .liquidMolarDensity => e | .matDensity => f | .matMolarMass => g
   | _ => none
 
+def parseOp (t : String) : Option (MatOp ℚ) :=
+  match t.splitOn ":" with
+  | ["K", k, v] => (parseRat v).map fun x => MatOp.kw k x
+  | ["S", k, v] => (optRat v).map fun x => MatOp.set k x
+  | _ => none
+
+def parseSign (t : String) : Option Int :=
+  if t == "1" then some 1 else if t == "-1" then some (-1) else none
+
+def parseReq (ts : List String) : Option (Req ℚ) :=
+  match ts with
+  | ["cP", ps, t, v, mf, mt, uf, ut] => do
+    let ps ← optRat ps; let t ← parseBool t; let v ← parseRat v
+    pure (.pressure ps t v (optStr mf) (optStr mt) (optStr uf) (optStr ut))
+  | "cL" :: e1 :: e2 :: e3 :: e4 :: e5 :: e6 :: e7 :: [v, bf, bt, uf, ut, bm, um] => do
+    let env ← ([e1, e2, e3, e4, e5, e6, e7].mapM optRat).bind mkEnv; let v ← parseRat v
+    pure (.loading env v (optStr bf) (optStr bt) (optStr uf) (optStr ut) (optStr bm) (optStr um))
+  | "cM" :: e1 :: e2 :: e3 :: e4 :: e5 :: e6 :: e7 :: [v, bf, bt, uf, ut] => do
+    let env ← ([e1, e2, e3, e4, e5, e6, e7].mapM optRat).bind mkEnv; let v ← parseRat v
+    pure (.material env v (optStr bf) (optStr bt) (optStr uf) (optStr ut))
+  | ["cT", v, uf, ut] => do
+    let v ← parseRat v
+    pure (.temperature v (optStr uf) (optStr ut))
+  | ["cU", tbl, v, uf, ut, sg] => do
+    let v ← parseRat v; let sg ← parseSign sg
+    if tbl ∈ ["pressure", "molar", "mass", "volume"] then pure (.unit tbl v (optStr uf) (optStr ut) sg) else none
+  | ["cS", ps, u] => do
+    let ps ← optRat ps
+    pure (.satp ps (optStr u))
+  | "cMo" :: v :: bf :: bt :: uf :: ut :: ops => do
+    let v ← parseRat v; let ops ← ops.mapM parseOp
+    pure (.materialObj ops v (optStr bf) (optStr bt) (optStr uf) (optStr ut))
+  | _ => none
+
 def step (ts : List String) : String :=
   match ts with
-  | ["cP", ps, t, v, mf, mt, uf, ut] =>
-    match optRat ps, parseBool t, parseRat v with
-    | some ps, some t, some v => showRes (cPressure ps t v (optStr mf) (optStr mt) (optStr uf) (optStr ut))
-    | _, _, _ => "bad-op"
-  | "cL" :: e1 :: e2 :: e3 :: e4 :: e5 :: e6 :: e7 :: [v, bf, bt, uf, ut, bm, um] =>
-    match ([e1, e2, e3, e4, e5, e6, e7].mapM optRat).bind mkEnv, parseRat v with
-    | some env, some v =>
-      showRes (cLoading env v (optStr bf) (optStr bt) (optStr uf) (optStr ut) (optStr bm) (optStr um))
-    | _, _ => "bad-op"
-  | "cM" :: e1 :: e2 :: e3 :: e4 :: e5 :: e6 :: e7 :: [v, bf, bt, uf, ut] =>
-    match ([e1, e2, e3, e4, e5, e6, e7].mapM optRat).bind mkEnv, parseRat v with
-    | some env, some v => showRes (cMaterial env v (optStr bf) (optStr bt) (optStr uf) (optStr ut))
-    | _, _ => "bad-op"
-  | ["cT", v, uf, ut] =>
-    match parseRat v with
-    | some v => showRes (cTemperature v (optStr uf) (optStr ut))
+  | "mG" :: k :: ops =>
+    match ops.mapM parseOp with
+    | some ops =>
+      match matGetProp (matProps ops) k with
+      | .ok (some x) => "ok " ++ showRat x
+      | .ok none => "ok ~"
+      | .error e => "err " ++ e.name
     | none => "bad-op"
-  | _ => "bad-op"
+  | _ =>
+    match parseReq ts with
+    | some r => showRes r.run
+    | none => "bad-op"
 
 def main : IO Unit := do loop (← IO.getStdin) step
